@@ -32,6 +32,13 @@ theorem bind_ok_right {ε α} (x : Except ε α) : (x >>= fun a => Except.ok a) 
 @[simp] theorem pyAssert_true : Gen.pyAssert true = Except.ok () := rfl
 @[simp] theorem pyAssert_false : Gen.pyAssert false = Except.error PyErr.AssertionError := rfl
 
+/-- `[x for x in xs if p(x)]` -/
+theorem filterMap_ite_eq_filter {α} (p : α → Bool) : ∀ xs : List α,
+    xs.filterMap (fun x => if p x = true then some x else none) = xs.filter p
+  | [] => rfl
+  | x :: xs => by
+    cases h : p x <;> simp [List.filterMap_cons, List.filter_cons, h, filterMap_ite_eq_filter p xs]
+
 /-! ### indexing -/
 
 theorem idx_ok {α} {xs : List α} {i : Nat} (h : i < xs.length) : Gen.idx xs i = Except.ok xs[i] := by
@@ -87,6 +94,52 @@ theorem forIn_ok {ε α β} {f : α → β → Except ε (ForInStep β)} {g : α
     cases g x b with
     | done b' => rfl
     | yield b' => exact forIn_ok b' (fun y hy => h y (List.mem_cons_of_mem _ hy))
+
+/-- `acc = […]; for x in xs: acc.append(f(x))` — the accumulating loop is `mapM` (the first exception wins) -/
+theorem forIn_append {ε α β} (f : α → Except ε β) (body : α → List β → Except ε (ForInStep (List β)))
+    (h : ∀ x acc, body x acc = (f x >>= fun t => Except.ok (ForInStep.yield (acc ++ [t])))) :
+    ∀ (xs : List α) (acc : List β), forIn xs acc body = (xs.mapM f >>= fun ys => Except.ok (acc ++ ys))
+  | [], acc => by simp [List.mapM_nil]
+  | x :: xs, acc => by
+    rw [List.forIn_cons, h x acc, List.mapM_cons]
+    cases hf : f x with
+    | error e => rfl
+    | ok t =>
+      simp only [ok_bind]
+      rw [forIn_append f body h xs (acc ++ [t])]
+      cases hm : xs.mapM f with
+      | error e => rfl
+      | ok ys => simp [hm]
+
+/-! ### dictionaries -/
+
+theorem dictGet_eq {κ ν} [BEq κ] (d : List (κ × ν)) (k : κ) :
+    Gen.dictGet d k = match Gen.dictFind d k with | some v => Except.ok v | none => Except.error PyErr.KeyError := rfl
+
+/-- the dictionary `{name: idx for idx, name in enumerate(names)}` is the model's `nameIdx` -/
+theorem dictFind_enumFrom (x : String) : ∀ (names : List String) (i : Nat),
+    Gen.dictFind ((List.zip (List.range' i names.length) names).map fun p => (p.2, p.1)) x = nameIdxFrom names i x
+  | [], _ => rfl
+  | y :: ys, i => by
+    simp only [List.length_cons, List.range'_succ, List.zip_cons_cons, List.map_cons, Gen.dictFind, nameIdxFrom,
+      dictFind_enumFrom x ys (i + 1), beq_iff_eq]
+    cases nameIdxFrom ys (i + 1) x <;> rfl
+
+theorem dictFind_enumDict (names : List String) (x : String) :
+    Gen.dictFind (Gen.enumDict names) x = nameIdx names x := by
+  unfold Gen.enumDict Gen.enumerate nameIdx
+  rw [List.range_eq_range']
+  exact dictFind_enumFrom x names 0
+
+/-- `[d[x] for x in xs]` / the `append` loop over `d[x]`: `KeyError` on the first unknown name -/
+theorem mapM_dictGet_enumDict (names : List String) : ∀ xs : List String,
+    xs.mapM (fun x => Gen.dictGet (Gen.enumDict names) x) = namesToIdx names xs
+  | [] => rfl
+  | x :: xs => by
+    rw [List.mapM_cons, dictGet_eq, dictFind_enumDict, namesToIdx, mapM_dictGet_enumDict names xs]
+    cases nameIdx names x with
+    | none => rfl
+    | some i => cases namesToIdx names xs <;> rfl
 
 /-- `if c: …ok a… else: …ok b…` -/
 theorem ite_ok {ε α} (c : Prop) [Decidable c] (a b : α) :
